@@ -34,6 +34,8 @@ impl ColorOptimizer {
         let mut b = buffer.flat_clone(false);
         for layer in &mut b.layers {
             let mut cur_attr = TextAttribute::default();
+            // set_char removes an image it writes into, but nothing that can be seen is changed here
+            let sixels = std::mem::take(&mut layer.sixels);
             for y in 0..layer.get_height() {
                 for x in 0..layer.get_width() {
                     let attr_ch = layer.get_char((x, y));
@@ -57,6 +59,7 @@ impl ColorOptimizer {
                     cur_attr = attribute;
                 }
             }
+            layer.sixels = sixels;
         }
         b
     }
